@@ -176,6 +176,29 @@ class Run:
             self.cov["transitions"] += r["generated"]
         return r
 
+    def apalache(self, module, cinit, init, inv, length, expect_error=False, timeout=900):
+        """Symbolic (bounded) model checking with Apalache; used for inductive invariants:
+        Init => Inv at length 0 and Inv /\\ Next => Inv' at length 1 from a generated arbitrary state.
+        Anything but the expected outcome is inconclusive (a statement about the specification, not the code)."""
+        self.tlcn += 1
+        od = os.path.join(self.scratch, "apa-%d" % self.tlcn)
+        args = ["apalache-mc", "check", "--out-dir=" + od, "--cinit=" + cinit, "--init=" + init, "--inv=" + inv, "--length=%d" % length,
+                module + ".tla"]
+        t0 = time.time()
+        try:
+            p = subprocess.run(args, cwd=self.specdir, capture_output=True, text=True, timeout=timeout)
+        except subprocess.TimeoutExpired:
+            raise Inconclusive("apalache timed out: " + " ".join(args))
+        out = p.stdout + p.stderr
+        ok = "The outcome is: NoError" in out and p.returncode == 0
+        err = "The outcome is: Error" in out and p.returncode == 12
+        self.cov.setdefault("apalache_runs", []).append({"module": module, "cinit": cinit, "init": init, "inv": inv, "length": length,
+                                                         "outcome": "NoError" if ok else ("Error" if err else "failed"),
+                                                         "wall": round(time.time() - t0, 2)})
+        if (expect_error and not err) or (not expect_error and not ok):
+            raise Inconclusive("apalache %s: expected %s, got:\n%s" % (" ".join(args[2:]), "a counterexample" if expect_error else "NoError", tail(out)))
+        shutil.rmtree(od, ignore_errors=True)
+
     def validate(self, module, files, timeout=900, cfg="Trace.cfg", env=None, label=None, parallel=None):
         """Real-scale trace validation: one single-worker JVM per shard file. Returns the list of
         rejected events [(file, line, event)]. TLC errors/timeouts are inconclusive."""
